@@ -152,7 +152,7 @@ class Ctx:
             self.pending.append((self.decisions + [(not mv, None)], m2))
         self.decisions.append((mv, None))
         self.pos += 1
-        self.pc.append(cond if mv else other)
+        self.pc.append(cond if mv else z3.Not(cond))
         self.model = m
         return mv
 
